@@ -7,7 +7,7 @@ from vf.evidence import Outcome
 from vf.world import World, Violation, settle, advance
 from vf.simnet import SimNet, Server
 from vf.peers.thrift_serial import ThriftSerialPeer
-from vf.fixtures.richsvc import Rich
+from vf.fixtures.richsvc import Rich, RichChild
 
 from thrift.Thrift import TApplicationException
 from scales.constants import SinkProperties
@@ -60,7 +60,7 @@ def _item():
   })
 
 
-def _call():
+def _call(child=False):
   rich = st.one_of(
       st.fixed_dictionaries({'m': st.just('ping'), 'args': st.just([]), 'outcome': st.sampled_from(['void', 'void', 'appexc'])}),
       st.fixed_dictionaries({'m': st.just('echo'), 'args': st.tuples(TEXT).map(list), 'outcome': st.sampled_from(['value', 'value', 'appexc']), 'ret': TEXT}),
@@ -73,6 +73,11 @@ def _call():
       st.fixed_dictionaries({'m': st.just('scale'), 'args': st.tuples(DBL).map(list), 'outcome': st.just('value'), 'ret': DBL}),
       st.fixed_dictionaries({'m': st.just('names'), 'args': st.tuples(I32).map(list), 'outcome': st.just('value'), 'ret': st.lists(TEXT, max_size=4)}),
   )
+  if child:
+    rich = st.one_of(
+        rich, rich,
+        st.fixed_dictionaries({'m': st.just('extra'), 'args': st.tuples(TEXT).map(list), 'outcome': st.sampled_from(['value', 'value', 'appexc']), 'ret': TEXT}),
+        st.fixed_dictionaries({'m': st.just('poke'), 'args': st.just([]), 'outcome': st.sampled_from(['void', 'void', 'appexc'])}))
   return rich.flatmap(lambda c: st.booleans().map(lambda kw: dict(c, kw=kw)))
 
 
@@ -84,12 +89,13 @@ def strategy(tier):
   return st.one_of(
       st.fixed_dictionaries({'svc': st.just('rich'), 'calls': st.lists(_call(), min_size=1, max_size=5), 'chunks': chunks}),
       st.fixed_dictionaries({'svc': st.just('rich'), 'calls': st.lists(_call(), min_size=1, max_size=5), 'chunks': chunks}),
+      st.fixed_dictionaries({'svc': st.just('richchild'), 'calls': st.lists(_call(True), min_size=1, max_size=5), 'chunks': chunks}),
       st.fixed_dictionaries({'svc': st.just('hello'), 'calls': st.lists(hello_call, min_size=1, max_size=4), 'chunks': chunks}),
   )
 
 
 ARG_NAMES = {'ping': [], 'echo': ['text'], 'add': ['a', 'b'], 'put': ['item'], 'risky': ['what'], 'flag': ['v'],
-             'blob': ['data'], 'scale': ['x'], 'names': ['n'], 'hi': ['test_data']}
+             'blob': ['data'], 'scale': ['x'], 'names': ['n'], 'hi': ['test_data'], 'extra': ['text'], 'poke': []}
 
 
 def _to_item(d):
@@ -151,6 +157,8 @@ def _run_once(plan, chunks):
 
   if plan['svc'] == 'rich':
     iface, pf = Rich.Iface, Rich.Processor
+  elif plan['svc'] == 'richchild':
+    iface, pf = RichChild.Iface, RichChild.Processor
   else:
     iface, pf = Hello.Iface, Hello.Processor
   peer = ThriftSerialPeer(pf, respond)
